@@ -276,23 +276,36 @@ static bool small_header(const mp::NLHeader &h) {
          h.num_common_exprs_in_single_objs <= lim;
 }
 
+// NLProblemBuilder configured the way the solver drivers configure it (SolverNLHandlerImpl: options objno / multiobj):
+// only the selected objective is added to the problem, O/G segments of the others are skipped.
+struct PB : mp::internal::NLProblemBuilder<mp::Problem> {
+  int objno_; bool multi_;
+  PB(mp::Problem &p, int objno, bool multi) : mp::internal::NLProblemBuilder<mp::Problem>(p), objno_(objno), multi_(multi) {}
+  int objno() const override { return objno_; }
+  bool multiobj() const override { return multi_; }
+};
+
 static void do_case(const std::string &id, int flags, int objsel, const std::string &data) {
   write_file(data);
   std::string oa, ea, ob, eb;
   bool has_header, small;
   { Rec a(objsel); oa = run_string(data, a, flags); ea = a.ev; has_header = a.has_header; small = has_header && small_header(a.header); }
   { Rec b(objsel); ob = run_file(b, flags); eb = b.ev; }
-  std::string on = "skip", onf = "skip", op = "skip", opf = "skip";
+  std::string on = "skip", onf = "skip", op = "skip", opf = "skip", pb0 = "skip", pb1 = "skip", pb2 = "skip", pbm = "skip";
   if (objsel == -1) {
     { Null n; on = run_string(data, n, flags); }
     { Null n; onf = run_file(n, flags); }
     if (!has_header || small) {
       { mp::Problem p; op = run_string(data, p, flags); }
       { mp::Problem p; opf = run_file(p, flags); }
+      { mp::Problem p; PB h(p, 0, false); pb0 = run_string(data, h, flags); }
+      { mp::Problem p; PB h(p, 1, false); pb1 = run_string(data, h, flags); }
+      { mp::Problem p; PB h(p, 2, false); pb2 = run_string(data, h, flags); }
+      { mp::Problem p; PB h(p, 1, true); pbm = run_file(h, flags); }
     }
   }
-  std::printf("%s %s | %s | file=%s,%d null=%s nullfile=%s prob=%s probfile=%s\n", id.c_str(), oa.c_str(), ea.c_str(),
-              ob.c_str(), ea == eb ? 1 : 0, on.c_str(), onf.c_str(), op.c_str(), opf.c_str());
+  std::printf("%s %s | %s | file=%s,%d null=%s nullfile=%s prob=%s probfile=%s pb0=%s pb1=%s pb2=%s pbm=%s\n", id.c_str(), oa.c_str(), ea.c_str(),
+              ob.c_str(), ea == eb ? 1 : 0, on.c_str(), onf.c_str(), op.c_str(), opf.c_str(), pb0.c_str(), pb1.c_str(), pb2.c_str(), pbm.c_str());
 }
 
 static void do_strtod(const std::string &bytes) {
